@@ -113,6 +113,11 @@ func (l *FakeLis) Accept() (socket.Conn, error) {
 func (l *FakeLis) Close() error {
 	vs.BlockObj("env:listener close "+l.addr, &l.obj, nil)
 	l.closed = true
+	// connections still waiting in the accept backlog are reset by the kernel
+	for _, c := range l.q {
+		c.end.p.dead = true
+	}
+	l.q = nil
 	return nil
 }
 func (l *FakeLis) Addr() net.Addr              { return nil }
